@@ -416,7 +416,9 @@ def run_streams(chk, prop, streams, matchers):
             mod = model_run(prop.GEN, ins)
         else:
             mod = exp
+        pj = getattr(prop, 'project', lambda x: x)
         for i, (a, e, o, m) in enumerate(zip(ins, exp, impl, mod)):
+            e, o, m = pj(e), pj(o), pj(m)
             if e.endswith('notwf'):
                 # the generator left the theorem's hypothesis at this step of the history:
                 # compare only the steps before it (counted in the distribution)
@@ -450,7 +452,9 @@ def run_scope_b(chk, prop, ins, label, matchers, oracle=None, timeout=30.0):
     if ins and len(chk.samples) < 6:
         chk.samples.append(dict(stream=label, input=ins[0][:600], model=mod[0][:600], impl=impl[0][:600]))
     bad = []
+    pj = getattr(prop, 'project', lambda x: x)
     for a, o, m in zip(ins, impl, mod):
+        o, m = pj(o), pj(m)
         if prop.nontrivial(a, m):
             chk.nontrivial.add(hashlib.sha1(a.encode()).digest()[:8])
         chk.count('outcome:' + m.split(' ')[0][:12] if m else 'outcome:empty')
@@ -479,14 +483,16 @@ def resolve_scope_b(chk, prop, bad, label, matchers, oracle=None, search_streams
     # shrink the first one (keeps 'impl != model')
     first = unresolved[0]
 
+    pj = getattr(prop, 'project', lambda x: x)
+
     def fails(lines):
         i = impl_run(chk.harness, lines, timeout=20.0)
         m = model_run(prop.GEN, lines)
-        return [x != y for x, y in zip(i, m)]
+        return [pj(x) != pj(y) for x, y in zip(i, m)]
     try:
         small = shrink(fails, first['input'])
-        i = impl_run(chk.harness, [small])[0]
-        m = model_run(prop.GEN, [small])[0]
+        i = pj(impl_run(chk.harness, [small])[0])
+        m = pj(model_run(prop.GEN, [small])[0])
         if i != m:
             first = dict(first, input=small, impl=i, model=m, shrunk_from=first['input'][:2000])
             if oracle and oracle(small, i) is False:
@@ -505,6 +511,7 @@ def resolve_scope_b(chk, prop, bad, label, matchers, oracle=None, search_streams
         chk.evals += len(ins)
         chk.count('search:' + st['name'], len(ins))
         for a, (_, e), o in zip(ins, cases, impl):
+            e, o = pj(e), pj(o)
             if o != e:
                 case = dict(concrete=True, stream='search:' + st['name'], input=a, expected=e, impl=o,
                             what='found by the enlarged property-domain search after the model/implementation tie broke',
